@@ -353,13 +353,13 @@ static ssize_t ck_write(void *c, const char *buf, size_t n) {
   }
   if (k->wbudget >= 0) k->wbudget -= done;
   if (done < n) {
-    if (done) return done; // short write first; the error comes with the next call
+    // the device is full / broken from here on: a short count (or 0) is an error to stdio
     if (!k->fired) {
       k->fired = 1;
       sendf("RES fault-fired write %d", k->err);
     }
     errno = k->err;
-    return 0;
+    return done;
   }
   return done;
 }
